@@ -36,6 +36,13 @@ def handle : List Sexp → Option Sexp
       let cfg ← cfg? cfg
       pure (ofBool (isSafeUri cfg t))
   | [.atom "ent", .str t] => some (res .str (stripentities t))
+  -- the helpers of sanitize_css one by one (wave 4)
+  | [.atom "unesc", .str t] => some (res .str (replaceUnicodeEscapes t))
+  | [.atom "nocomm", .str t] => some (.str (stripCssComments t))
+  | [.atom "propok", cfg, .str pn, .str v] => do
+      let cfg ← cfg? cfg
+      pure (ofBool (isSafeCss cfg pn v))
+  | [.atom "refs", .str t] => some (res .str (stripRefs t))
   | [.atom "elem", cfg, t, a] => do
       let cfg ← cfg? cfg; let t ← QName.ofSexp? t; let a ← attrsOfSexp? a
       pure (ofBool (isSafeElem cfg t a))
